@@ -64,7 +64,11 @@ def _specs(tier: str):
              (), 1),
             ('chain3-paused', [('P1', shapes['chain3'])], 1, 2, flows_q,
              {'options': {'paused_start': True}, 'resume': True}, (), 2),
+            ('chain3-pause1', [('P1', shapes['chain3'])], 1, 2, flows_q,
+             {'pre_op': ('pause', {}), 'resume': True}, (), 3),
             ('chain3-held', [('P1', shapes['chain3'])], 1, 2, flows_q,
+             {'pre_op': ('hold', {'tasks': ['1/a', '1/b', '1/c']})}, (), 2),
+            ('chain3-holdpt', [('P1', shapes['chain3'])], 1, 2, flows_q,
              {'options': {'holdcp': '0'}}, (), 1),
             ('chain2-x2', [('P1', shapes['chain2'])], 1, 2, ['all', 'new'],
              {}, (), 2),
@@ -116,6 +120,7 @@ def catalogue(tier: str):
 def make_factory(spec, tier=None):
     alpha = alphabet(spec)
     first = [(n, kw) for part, n, kw in alpha if part == spec['part']]
+    pre = spec.get('pre_op')          # issued at the first boundary only
     if spec.get('resume'):
         rest = [('resume', {})]
     else:
@@ -123,7 +128,12 @@ def make_factory(spec, tier=None):
     budget = spec.get('budget', 1)
 
     def ops(w):
-        return first if w.op_count == 0 else rest
+        k = w.op_count
+        if pre is not None:
+            if k == 0:
+                return [tuple(pre)] if w.iterations == 1 else []
+            k -= 1
+        return first if k == 0 else rest
 
     def factory():
         outcomes = {t: ['failed'] for t in spec['fail_tasks']}
